@@ -29,6 +29,7 @@ import (
 	"fmt"
 	"math/rand"
 	"os"
+	"runtime/pprof"
 	"sort"
 	"strconv"
 	"strings"
@@ -59,6 +60,7 @@ type c09obj struct {
 	last2    string
 	parent   int
 	bornStep int
+	moves    []tak.Move // legal moves at creation (for the generator)
 }
 
 type c09fresh struct {
@@ -77,6 +79,8 @@ type c09run struct {
 	fails     [][3]string // class, what the implementation did, what the property demands
 	seen      map[string]bool
 	nlive     int
+	scratch   *tak.Position
+	mbuf      []tak.Move
 	overflow  bool
 }
 
@@ -122,19 +126,26 @@ func c09Core(p *tak.Position) (s string) {
 	return s
 }
 
-func c09Legal(p *tak.Position) (s string) {
+// the legal move set of p: the generated moves that the engine accepts.  The trial moves go into a scratch
+// object that is never a handle (so the reads themselves exercise MovePreallocated with a reused buffer).
+func (rn *c09run) legal(p *tak.Position) (s string, list []tak.Move) {
 	if panicked, _ := safely(func() {
+		if rn.scratch == nil || rn.scratch.Size() != p.Size() {
+			rn.scratch = tak.Alloc(p.Size())
+		}
 		var ms []string
-		for _, m := range p.AllMoves(nil) {
-			if _, e := p.Move(m); e == nil {
+		rn.mbuf = p.AllMoves(rn.mbuf[:0])
+		for _, m := range rn.mbuf {
+			if _, e := p.MovePreallocated(m, rn.scratch); e == nil {
 				ms = append(ms, encMove(m))
+				list = append(list, m)
 			}
 		}
 		s = c09Digest(ms)
 	}); panicked {
-		return "PANIC"
+		return "PANIC", nil
 	}
-	return s
+	return s, list
 }
 
 func c09Digest(ms []string) string {
@@ -414,9 +425,9 @@ func (rn *c09run) observeAll(op c09op, res, created int) {
 		}
 		rn.nlive++
 		core := c09Core(o.p)
-		legal := c09Legal(o.p)
+		legal, list := rn.legal(o.p)
 		if k == created {
-			o.core, o.legal = core, legal
+			o.core, o.legal, o.moves = core, legal, list
 			o.last1, o.last2 = "", ""
 			// derived data must be what the squares say
 			if want := c09Scratch(o.p); want != core {
@@ -428,7 +439,9 @@ func (rn *c09run) observeAll(op c09op, res, created int) {
 			}
 			if op.kind == 'C' {
 				src := rn.objs[op.h]
-				if sc, sl := c09Core(src.p), c09Legal(src.p); sc != core || sl != legal {
+				sc := c09Core(src.p)
+				sl, _ := rn.legal(src.p)
+				if sc != core || sl != legal {
 					rn.fail("clone-differs", fmt.Sprintf("clone %d shows %s legal %s", k, core, legal), fmt.Sprintf("its source %d shows %s legal %s", op.h, sc, sl))
 				}
 			}
@@ -556,6 +569,61 @@ func c09DominoBoard(r *rand.Rand, size int) (tak.Config, [][]tak.Square, int) {
 	return cfg, board, 2 + r.Intn(40)
 }
 
+// a board with a finished road of one colour (a monotone walk from one edge to the opposite one, sometimes for
+// both colours), other squares filled at random: GameOver depends on the group slices here
+func c09RoadBoard(r *rand.Rand, size int) (tak.Config, [][]tak.Square, int) {
+	board := make([][]tak.Square, size)
+	for y := range board {
+		board[y] = make([]tak.Square, size)
+	}
+	col := tak.White
+	if r.Intn(2) == 0 {
+		col = tak.Black
+	}
+	other := col.Flip()
+	vertical := r.Intn(2) == 0
+	onRoad := map[[2]int]bool{}
+	a := r.Intn(size)
+	for b := 0; b < size; b++ {
+		steps := r.Intn(3) - 1
+		for {
+			x, y := a, b
+			if !vertical {
+				x, y = b, a
+			}
+			onRoad[[2]int{x, y}] = true
+			if steps == 0 || a+steps < 0 || a+steps >= size {
+				break
+			}
+			a += steps
+			steps = 0
+		}
+	}
+	for y := 0; y < size; y++ {
+		for x := 0; x < size; x++ {
+			if onRoad[[2]int{x, y}] {
+				sq := tak.Square{tak.MakePiece(col, tak.Flat)}
+				for j := r.Intn(3); j > 0; j-- {
+					sq = append(sq, tak.MakePiece([]tak.Color{tak.White, tak.Black}[r.Intn(2)], tak.Flat))
+				}
+				board[y][x] = sq
+				continue
+			}
+			switch r.Intn(5) {
+			case 0:
+				board[y][x] = tak.Square{tak.MakePiece(other, tak.Flat)}
+			case 1:
+				board[y][x] = tak.Square{tak.MakePiece(other, tak.Standing)}
+			case 2:
+				board[y][x] = tak.Square{tak.MakePiece(col, tak.Flat), tak.MakePiece(other, tak.Flat)}
+			}
+		}
+	}
+	cfg := tak.Config{Size: size, BlackWinsTies: r.Intn(4) == 0}
+	fitReserves(r, &cfg, board)
+	return cfg, board, 2 + r.Intn(40)
+}
+
 func c09Start(r *rand.Rand, size int) c09op {
 	switch k := r.Intn(20); {
 	case k < 8: // a position from a playout (often past the end of the game, so that roads exist)
@@ -564,8 +632,8 @@ func c09Start(r *rand.Rand, size int) c09op {
 		p := ps[len(ps)-1-r.Intn(minInt(3, len(ps)))]
 		return c09op{kind: 'I', cfg: p.Config(), board: boardOf(p), ply: p.MoveNumber()}
 	case k < 12:
-		p := roadBoard(r, size)
-		return c09op{kind: 'I', cfg: p.Config(), board: boardOf(p), ply: p.MoveNumber()}
+		cfg, board, ply := c09RoadBoard(r, size)
+		return c09op{kind: 'I', cfg: cfg, board: board, ply: ply}
 	case k < 15:
 		p, board, ply := constructedBoard(r, size, []int{2, 4, 9}[r.Intn(3)], 0.2+0.7*r.Float64())
 		return c09op{kind: 'I', cfg: p.Config(), board: board, ply: ply}
@@ -657,7 +725,7 @@ func c09RandomSeq(c *ctx, withLegal, full bool) {
 			m = c09BadMove(r, p)
 		} else if r.Intn(40) == 0 {
 			m = tak.Move{Type: tak.Pass}
-		} else if legal := legalMoves(p); len(legal) > 0 {
+		} else if legal := rn.objs[h].moves; len(legal) > 0 {
 			m = pickMove(r, p, legal, r.Intn(6))
 		} else {
 			m = c09BadMove(r, p)
@@ -724,8 +792,7 @@ func c09Exhaustive(c *ctx, depth int, starts int, full bool) {
 		run := func(seq []choice) bool {
 			rn := newC09run(false, full)
 			rn.apply(first)
-			p0 := rn.objs[0].p
-			l0 := legalMoves(p0)
+			l0 := rn.objs[0].moves
 			if len(l0) == 0 {
 				return false
 			}
@@ -735,12 +802,11 @@ func c09Exhaustive(c *ctx, depth int, starts int, full bool) {
 				if !rn.objs[ch.h].live {
 					return false // source dead: not admissible
 				}
-				p := rn.objs[ch.h].p
 				var m tak.Move
 				if ch.illegal {
 					m = tak.Move{X: 0, Y: 0, Type: tak.SlideLeft, Slides: tak.MkSlides(1)} // off the edge (fails late)
 				} else {
-					l := legalMoves(p)
+					l := rn.objs[ch.h].moves
 					if len(l) == 0 {
 						return false
 					}
@@ -783,6 +849,11 @@ func runC09(c *ctx) {
 	n := 2000
 	if c.tier == "thorough" {
 		n = 200000
+	}
+	if v := os.Getenv("VERIF_C09_PROF"); v != "" {
+		f, _ := os.Create(v)
+		pprof.StartCPUProfile(f)
+		defer pprof.StopCPUProfile()
 	}
 	if v := os.Getenv("VERIF_C09_N"); v != "" {
 		n, _ = strconv.Atoi(v)
